@@ -47,8 +47,8 @@ Qed.
 (* the signature environment matters only through lookups *)
 Lemma sig_lookup_notin Sg fn : ~ In fn (map fs_name Sg) -> sig_lookup Sg fn = None.
 Proof.
-  induction Sg as [|s S IH]; cbn; auto. intros N. rewrite IH; [|tauto].
-  destruct (String.eqb fn (fs_name s)) eqn:E; auto. apply String.eqb_eq in E. tauto.
+  induction Sg as [|s S IH]; cbn; auto. intros N. rewrite IH; [|intros H; apply N; now right].
+  destruct (String.eqb fn (fs_name s)) eqn:E; auto. apply String.eqb_eq in E. exfalso. apply N. now left.
 Qed.
 Lemma sig_lookup_perm Sg Sg' : Permutation Sg Sg' -> NoDup (map fs_name Sg) -> forall fn, sig_lookup Sg fn = sig_lookup Sg' fn.
 Proof.
